@@ -21,6 +21,8 @@ class Trace:
 
         self.end = end
         self.used_qubits = used_qubits
+        # How many ordinary gates subcircuit discovery has met in this trace
+        self.gates = 0
 
     def __repr__(self):
         if self.end is None:
@@ -106,6 +108,7 @@ class DiscoverSubcircuits(UsedQubitIndicesVisitor):
         count = len(self.subcircuits)
         had_started = self.current is not None
         open_at_entry = self.current
+        gates_at_entry = open_at_entry.gates if had_started else 0
 
         # XXX: using a trace restriction here is untested
         alone = len(block.statements) <= 1
@@ -128,6 +131,19 @@ class DiscoverSubcircuits(UsedQubitIndicesVisitor):
             # measured in a body that does not run exactly once. (One that
             # is superseded by a prepare_all of the body is not measured.)
             raise JaqalError("measure_all -> prepare_all not supported in loops")
+
+        if (
+            had_started
+            and (reps != 1)
+            and (self.current is not open_at_entry)
+            and (open_at_entry.gates != gates_at_entry)
+        ):
+            # The subcircuit that was open at entry is superseded in the
+            # body after gates of the body went into it: from the second
+            # pass on those gates follow a measure_all.
+            raise JaqalError(
+                "gates before a prepare_all in a loop must follow a prepare_all in the same loop"
+            )
 
         if (
             (reps != 1)
@@ -159,6 +175,7 @@ class DiscoverSubcircuits(UsedQubitIndicesVisitor):
         else:
             if self.current is None:
                 raise JaqalError(f"gates must follow a {self.p_gate}")
+            self.current.gates += 1
 
         return super().visit_GateStatement(gate, context=context)
 
